@@ -209,6 +209,13 @@ func (s *State) loadAt(h *Heap, root types.Type, r, i *Term, prefix string, t ty
 		name := familyName(root, joinPath(prefix, l.path))
 		fam := h.family(name, l.sort)
 		x := Select(Select(fam, r), i)
+		if !facts && (strings.HasSuffix(l.path, "$r") || strings.HasSuffix(l.path, "$p")) {
+			// read under a quantifier: the entry-heap well-formedness fact in quantified form
+			// (every region stored in the heap at function entry was allocated at entry)
+			rv, iv := Sym("wf.r."+name, SInt), Sym("wf.i."+name, SInt)
+			e := Select(Select(Sym(name+"@0", fam.Sort), rv), iv)
+			s.assume(Forall([]*Term{rv, iv}, Select(Sym("alloc@0", SArrB), e), e))
+		}
 		if facts {
 			s.assumeLeafFacts(l, x, h)
 			if strings.HasSuffix(l.path, "$r") || strings.HasSuffix(l.path, "$p") {
